@@ -48,10 +48,6 @@ func renderQuery(o *obligation, withModel bool, extra []string) string {
 			collectAtoms(a, needed)
 		}
 	}
-	lits := c.strLitAxioms()
-	for _, a := range lits {
-		collectAtoms(a, needed)
-	}
 	var strExt []*T
 	for _, f := range c.twins {
 		at := map[string]bool{}
@@ -145,6 +141,11 @@ func renderQuery(o *obligation, withModel bool, extra []string) string {
 			collectAtoms(a.args[1], needed)
 		}
 		keep = append(keep, a)
+	}
+	// facts about string literals: only for the literals the query mentions
+	lits := c.strLitAxioms(needed)
+	for _, a := range lits {
+		collectAtoms(a, needed)
 	}
 	// declarations
 	d := c.d
